@@ -32,6 +32,8 @@ structure Inv (st : PDState) (c : Nat) : Prop where
   tok : ∀ d ∈ st.ds, 0 ≤ d.token
   bot : ∀ p ∈ st.bottoms, ∀ x ∈ p.2, (-1 : Int) ≤ x
   clo : ∀ (o : Nat) (d de : Delim), st.ds[o]? = some d → 0 ≤ d.end_ → st.ds[d.end_.toNat]? = some de → de.open_ = false
+  opn : ∀ (o : Nat) (d : Delim), st.ds[o]? = some d → 0 ≤ d.end_ → d.open_ = true
+  inj : ∀ (o1 o2 : Nat) (d1 d2 : Delim), st.ds[o1]? = some d1 → st.ds[o2]? = some d2 → 0 ≤ d1.end_ → d1.end_ = d2.end_ → o1 = o2
 
 /-! ### the bookkeeping of `openersBottom` stays above −1 -/
 
@@ -228,7 +230,7 @@ theorem inv_keep (st : PDState) (c : Nat) (hI : Inv st c) (closer : Delim) (hcl 
     rcases Nat.lt_or_ge c st.ds.length with h | h
     · exact h
     · rw [List.getElem?_eq_none_iff.mpr h] at hcl; cases hcl
-  refine ⟨by simp [hI.len], hc, ?_, hI.lam, ?_, ?_, .inr (header_past st c closer hI hcl), ?_, hI.tok, hb, hI.clo⟩
+  refine ⟨by simp [hI.len], hc, ?_, hI.lam, ?_, ?_, .inr (header_past st c closer hI hcl), ?_, hI.tok, hb, hI.clo, hI.opn, hI.inj⟩
   · intro o d ho he
     have := hI.pairs o d ho he
     exact ⟨this.1, by omega⟩
@@ -315,7 +317,7 @@ theorem inv_match (st : PDState) (c : Nat) (hI : Inv st c) (closer : Delim) (hcl
     rcases matched_end st.ds c v hne o d ho he with ⟨rfl, _⟩ | ⟨_, d0, h0, h1⟩
     · omega
     · exact hland o d0 h0 (by omega) (by omega)
-  refine ⟨by simp [hI.len], by rw [matched_length]; exact hc, ?_, ?_, ?_, ?_, .inl rfl, ?_, ?_, hb, ?_⟩
+  refine ⟨by simp [hI.len], by rw [matched_length]; exact hc, ?_, ?_, ?_, ?_, .inl rfl, ?_, ?_, hb, ?_, ?_, ?_⟩
   · -- pairs
     intro o d ho he
     rcases matched_end st.ds c v hne o d ho he with ⟨rfl, h2⟩ | ⟨_, d0, h0, h1⟩
@@ -396,6 +398,25 @@ theorem inv_match (st : PDState) (c : Nat) (hI : Inv st c) (closer : Delim) (hcl
         rw [hvo] at this; cases this
       rw [matched_get_other st.ds c v _ hec hev] at hde
       exact hI.clo o d0 de h0 (by omega) (by rw [h1]; exact hde)
+  · -- matched openers can open
+    intro o d ho he
+    by_cases hov : o = v
+    · subst hov; rw [matched_get_v st.ds c o hne dv hdv] at ho; cases ho; exact hvo
+    · by_cases hoc : o = c
+      · subst hoc
+        rw [matched_get_c st.ds o v hne closer hcl] at ho; cases ho
+        have := hI.pairs o closer hcl he; omega
+      · rw [matched_get_other st.ds c v o hoc hov] at ho
+        exact hI.opn o d ho he
+  · -- one opener per closer
+    intro o1 o2 d1 d2 h1 h2 e1 e12
+    rcases matched_end st.ds c v hne o1 d1 h1 e1 with ⟨rfl, a2⟩ | ⟨_, p1, a1, a2⟩
+    · rcases matched_end st.ds c o1 hne o2 d2 h2 (by omega) with ⟨rfl, _⟩ | ⟨_, p2, b1, b2⟩
+      · rfl
+      · have := hI.pairs o2 p2 b1 (by omega); omega
+    · rcases matched_end st.ds c v hne o2 d2 h2 (by omega) with ⟨rfl, b2⟩ | ⟨_, p2, b1, b2⟩
+      · have := hI.pairs o1 p1 a1 (by omega); omega
+      · exact hI.inj o1 o2 p1 p2 a1 b1 (by omega) (by omega)
 
 theorem pdStep_inv (st : PDState) (c : Nat) (hI : Inv st c) (hc : c < st.ds.length) : Inv (pdStep st c) (c + 1) := by
   have hcl : st.ds[c]? = some st.ds[c] := List.getElem?_eq_getElem hc
@@ -463,13 +484,15 @@ theorem pdStep_inv (st : PDState) (c : Nat) (hI : Inv st c) (hc : c < st.ds.leng
 /-- the invariant holds of the state the loop starts from -/
 theorem inv_init (ds : List Delim) (hend : ∀ d ∈ ds, d.end_ < 0) (htok : ∀ d ∈ ds, 0 ≤ d.token) :
     Inv { ds := ds, bottoms := [], headerIdx := 0, lastTokenIdx := -2, jumps := [] } 0 := by
-  refine ⟨rfl, Nat.zero_le _, ?_, ?_, ?_, ?_, .inl rfl, Nat.le_refl _, htok, ?_, ?_⟩
+  refine ⟨rfl, Nat.zero_le _, ?_, ?_, ?_, ?_, .inl rfl, Nat.le_refl _, htok, ?_, ?_, ?_, ?_⟩
   · intro o d ho he; have := hend d (List.mem_of_getElem? ho); omega
   · intro o1 o2 d1 d2 h1 _ e1 _ _; have := hend d1 (List.mem_of_getElem? h1); omega
   · intro k hk; omega
   · intro k hk; omega
   · intro p hp; cases hp
   · intro o d de ho he _; have := hend d (List.mem_of_getElem? ho); omega
+  · intro o d ho he; have := hend d (List.mem_of_getElem? ho); omega
+  · intro o1 o2 d1 d2 h1 _ e1 _; have := hend d1 (List.mem_of_getElem? h1); omega
 
 theorem foldl_inv (ds0 : List Delim) : ∀ (n : Nat) (st : PDState) (c : Nat), Inv st c → st.ds.length = ds0.length → c + n ≤ ds0.length →
     ∃ st', (List.range' c n).foldl pdStep st = st' ∧ Inv st' (c + n) ∧ st'.ds.length = ds0.length := by
@@ -508,6 +531,89 @@ theorem pairs_laminar (ds : List Delim) (hend : ∀ d ∈ ds, d.end_ < 0) (htok 
   rw [List.range_eq_range', e1]
   simp only [Nat.zero_add] at e2
   exact ⟨e2.pairs, e2.lam, e3⟩
+
+/-! ### what else the pairs satisfy, and what the function leaves alone -/
+
+/-- marker, token position and run length of every record are untouched; an `end` is either as before or the closer just processed -/
+def SameShape (a b : List Delim) : Prop :=
+  b.length = a.length ∧ ∀ (i : Nat) (d : Delim), b[i]? = some d →
+    ∃ d0, a[i]? = some d0 ∧ d.marker = d0.marker ∧ d.token = d0.token ∧ d.length = d0.length ∧ (d.end_ = d0.end_ ∨ 0 ≤ d.end_)
+
+theorem SameShape.refl (a : List Delim) : SameShape a a := ⟨rfl, fun _ d h => ⟨d, h, rfl, rfl, rfl, .inl rfl⟩⟩
+
+theorem SameShape.trans {a b c : List Delim} (h1 : SameShape a b) (h2 : SameShape b c) : SameShape a c := by
+  refine ⟨by rw [h2.1, h1.1], ?_⟩
+  intro i d hd
+  obtain ⟨d1, a1, a2, a3, a4, a5⟩ := h2.2 i d hd
+  obtain ⟨d0, b1, b2, b3, b4, b5⟩ := h1.2 i d1 a1
+  refine ⟨d0, b1, a2.trans b2, a3.trans b3, a4.trans b4, ?_⟩
+  rcases a5 with h | h
+  · rcases b5 with g | g
+    · exact .inl (h.trans g)
+    · exact .inr (by omega)
+  · exact .inr h
+
+theorem matched_shape (ds : List Delim) (c v : Nat) : SameShape ds (matched ds c v) := by
+  refine ⟨matched_length ds c v, ?_⟩
+  intro i d hd
+  unfold matched at hd
+  rw [modify_get, modify_get] at hd
+  cases hq : ds[i]? with
+  | none => rw [hq] at hd; split at hd <;> (split at hd <;> cases hd)
+  | some d0 =>
+    rw [hq] at hd
+    refine ⟨d0, rfl, ?_⟩
+    split at hd
+    · split at hd
+      · simp only [Option.map_some, Option.some.injEq] at hd; subst hd; exact ⟨rfl, rfl, rfl, .inr (by show (0 : Int) ≤ (c : Int); omega)⟩
+      · simp only [Option.map_some, Option.some.injEq] at hd; subst hd; exact ⟨rfl, rfl, rfl, .inr (by show (0 : Int) ≤ (c : Int); omega)⟩
+    · split at hd
+      · simp only [Option.map_some, Option.some.injEq] at hd; subst hd; exact ⟨rfl, rfl, rfl, .inl rfl⟩
+      · cases hd; exact ⟨rfl, rfl, rfl, .inl rfl⟩
+
+theorem pdStep_shape (st : PDState) (c : Nat) : SameShape st.ds (pdStep st c).ds := by
+  unfold pdStep
+  split
+  · exact SameShape.refl _
+  · simp only
+    split
+    · exact SameShape.refl _
+    · split
+      · exact matched_shape _ _ _
+      · exact SameShape.refl _
+
+theorem foldl_shape : ∀ (l : List Nat) (st : PDState), SameShape st.ds (l.foldl pdStep st).ds := by
+  intro l
+  induction l with
+  | nil => intro st; exact SameShape.refl _
+  | cons c rest ih => intro st; simp only [List.foldl_cons]; exact (pdStep_shape st c).trans (ih _)
+
+/-- **C02.pairs_facts** — every record keeps its marker, token position and run length; an `end` is −1 as before or a valid index; a
+closer closes one opener; no delimiter is both the opener of one pair and the closer of another -/
+theorem pairs_facts (ds : List Delim) (hend : ∀ d ∈ ds, d.end_ = -1) (htok : ∀ d ∈ ds, 0 ≤ d.token) :
+    SameShape ds (processDelims ds)
+    ∧ (∀ (i : Nat) (d : Delim), (processDelims ds)[i]? = some d → d.end_ = -1 ∨ ((i : Int) < d.end_ ∧ d.end_ < (ds.length : Int)))
+    ∧ (∀ (o1 o2 : Nat) (d1 d2 : Delim), (processDelims ds)[o1]? = some d1 → (processDelims ds)[o2]? = some d2 → 0 ≤ d1.end_ →
+        d1.end_ = d2.end_ → o1 = o2)
+    ∧ (∀ (o o2 : Nat) (d d2 : Delim), (processDelims ds)[o]? = some d → (processDelims ds)[o2]? = some d2 → 0 ≤ d.end_ → 0 ≤ d2.end_ →
+        d2.end_ ≠ (o : Int)) := by
+  have hend' : ∀ d ∈ ds, d.end_ < 0 := fun d hd => by rw [hend d hd]; decide
+  have hshape : SameShape ds (processDelims ds) := by unfold processDelims; exact foldl_shape _ _
+  unfold processDelims at *
+  obtain ⟨st', e1, e2, e3⟩ := foldl_inv ds ds.length _ 0 (inv_init ds hend' htok) rfl (by omega)
+  rw [List.range_eq_range'] at *
+  rw [e1] at hshape ⊢
+  simp only [Nat.zero_add] at e2
+  refine ⟨hshape, ?_, e2.inj, ?_⟩
+  · intro i d hd
+    obtain ⟨d0, a1, _, _, _, a5⟩ := hshape.2 i d hd
+    rcases a5 with h | h
+    · left; rw [h]; exact hend d0 (List.mem_of_getElem? a1)
+    · right; exact e2.pairs i d hd h
+  · intro o o2 d d2 ho ho2 he he2 heq
+    have h1 := e2.opn o d ho he
+    have h2 := e2.clo o2 d2 d ho2 he2 (by rw [heq]; simpa using ho)
+    rw [h1] at h2; cases h2
 
 /-! non-vacuity: `*a _b* c_` — the second pair would cross the first and is not formed; `**a *b* c**` — nested pairs -/
 def dl (marker length : Nat) (token : Int) (o c : Bool) : Delim := { marker := marker, length := length, token := token, end_ := -1, open_ := o, close := c }
